@@ -60,15 +60,16 @@ type World struct {
 	Fee   txgen.Fee
 	memoN int
 
-	Props     []*PropInfo
-	Domains   []*DomInfo
-	Tracks    []*TrackInfo
-	Allegs    []*AllegInfo
-	OlvmNext  map[string]uint64 // next nonce per eth user (bookkeeping of executed txs)
-	EthNonce  map[string]uint64 // nonce for embedded ethereum txs
-	Contract  []ethcmn.Address
-	Factories []ethcmn.Address // deployed "fund, then deploy" factories (see rtFactory)
-	Nests     []ethcmn.Address // deployed self-calling contracts whose inner frame creates an account and reverts (see rtNest)
+	Props       []*PropInfo
+	Domains     []*DomInfo
+	Tracks      []*TrackInfo
+	Allegs      []*AllegInfo
+	OlvmNext    map[string]uint64 // next nonce per eth user (bookkeeping of executed txs)
+	EthNonce    map[string]uint64 // nonce for embedded ethereum txs
+	Contract    []ethcmn.Address
+	Factories   []ethcmn.Address // deployed "fund, then deploy" factories (see rtFactory)
+	FactoriesRv []ethcmn.Address // deployed factories whose value-carrying creation over a funded address reverts (see rtFactoryRv)
+	Nests       []ethcmn.Address // deployed self-calling contracts whose inner frame creates an account and reverts (see rtNest)
 
 	Results  []*sim.BlockRes // primary replica's results per block
 	Restarts int             // restarts of the single replica performed so far (BlockSpec.Restart)
